@@ -483,6 +483,10 @@ def directed_c01():
     D.append(("closure_in_native_loop_then_break", [("decl", "t", "0"), ("for", ("decl", "i", "0"), "i < n + 2", ("inc", "i"), [("raw", "f := func() int {\n\tdefer func() {}()\n\treturn i + a\n}"), ("if", "f() > b", [("break",)], None), ("if", "i == 1", [("continue",)], None), ("assign", "t", "t + f()")]), Y("t + 1"), Y("b")]))
     D.append(("closure_in_native_switch_then_break", [("decl", "t", "0"), Y("a"), ("switch", None, "b & 1", [("0", [("raw", "g := func() int { return a + 1 }"), ("if", "g1", [("break",)], None), ("assign", "t", "g()")])], [("assign", "t", "7")]), Y("t + 2")]))
     D.append(("closure_in_native_range_then_continue", [("decl", "t", "0"), ("range", "_", "v", ":=", "[]int{a, b, a + b}", [("raw", "h := func() bool { return v&1 == 0 }"), ("if", "h()", [("continue",)], None), ("assign", "t", "t*2 + v")]), Y("t")]))
+    # condition-only loop: yielding compound statement with a continue, then yield-free trailing statements
+    D.append(("while_continue_in_yielding_if_then_trailing", [("decl", "i", "0"), ("for", None, "i < n + 1", None, [("if", "i & 1 == 0", [Y("i + 1"), ("inc", "i"), ("continue",)], None), ("inc", "i"), E(1)]), Y("a")]))
+    D.append(("while_continue_in_yielding_switch_then_trailing", [("decl", "i", "0"), ("decl", "t", "0"), ("for", None, "i < n + 1", None, [("switch", None, "i & 1", [("0", [Y("i + t"), ("inc", "i"), ("continue",)])], None), ("inc", "i"), ("assign", "t", "t + 10")]), Y("t")]))
+    D.append(("while_continue_after_delegation_then_trailing", [("decl", "i", "0"), ("for", None, "i < n", None, [("if", "g1", [("yieldfrom", "H2(i)"), ("inc", "i"), ("continue",)], None), ("inc", "i"), E(2)]), Y("i")]))
     D.append(("tagless_switch_in_loop_with_continue", [("for", ("decl", "i", "0"), "i < n", ("inc", "i"), [("switch", None, None, [("i == 0", [Y("a + 1")]), ("i > 1", [Y("i + 2"), ("continue",)])], [E(1)]), Y("i + 100")]), Y("b")]))
     D.append(("tagless_switch_with_init_last_in_loop", [("for", ("decl", "i", "0"), "i < n", ("inc", "i"), [("switch", ("decl", "x", "i + a"), None, [("x > b", [Y("x + 1")]), ("g1", [E(1)])], None)]), Y("b")]))
     D.append(("for_without_condition", [("for", ("decl", "i", "0"), None, ("inc", "i"), [("if", "i >= n", [("break",)], None), Y("i + 1"), ("if", "g1", [("continue",)], None), E(1)]), Y("a")]))
@@ -762,7 +766,7 @@ def plan_C02(ctx):
 
     def build(corp):
         counts = build_c01_corpus(ctx, corp, ctx.q(150, 1500), ctx.q(450, 2000), sample_seed_off=2, transform=gen.effectify)
-        xs = gen.exprform_programs() + gen.funcvalue_programs()
+        xs = gen.exprform_programs() + gen.funcvalue_programs() + gen.unit_programs()
         for p in xs:
             corp.add(p)
         counts["expression_forms"] = len(xs)
@@ -882,6 +886,7 @@ def directed_c05():
     D.append(("switch_clause_ends_in_if_break_behind_delegation", [("for", ("decl", "i", "0"), "i < n + 1", ("inc", "i"), [("switch", None, "i & 1", [("0", [("if", "g1", [YF("H2(i)"), ("break",)], None)])], [("eff", 765)]), Y("i + 1")]), Y("a")]))
     D.append(("switch_clause_ends_in_if_else_break_behind_delegation_no_loop", [("switch", None, "a & 1", [("0", [("eff", 766), ("if", "g1", [YF("H2(a)"), ("if", "g2", [("break",)], None), Y("a + 1")], [Y("b")])])], None), Y("b + 99")]))
     D.append(("breakable_switch_last_in_if_body_delegation", [("if", "g1", [("switch", None, "a & 1", [("0", [YF("H2(a)"), ("if", "g2", [("break",)], None), Y("a + 2")])], None)], None), YF("H2(b)"), Y("b + 3")]))
+    D.append(("closure_in_native_loop_then_continue_before_delegation", [("decl", "t", "0"), ("for", ("decl", "i", "0"), "i < n + 1", ("inc", "i"), [("raw", "f := func() int { return i + a }"), ("if", "f()&1 == 0", [("continue",)], None), ("assign", "t", "t + f()")]), YF("H2(t)"), Y("b")]))
     D.append(("same_iter_twice", [("raw", "it := H1(a)"), YF("it"), YF("it"), Y("b")]))
     return D
 
@@ -969,6 +974,9 @@ def directed_c03():
     D.append(("range_two_vars_body_redeclares_key", [("range", "k", "v", ":=", "[]int{a, b}", [("raw", "p := &k"), ("raw", "k, ok := v + 10, v > a"), ("if", "ok", [Y("k")], None), Y("*p + 5")]), Y("b + 6")]))
     D.append(("range_one_var_body_shadows", [("range", "_", "v", ":=", "[]int{a, b}", [("raw", "get := func() int { return v }"), ("raw", "v := v + 100"), Y("v"), Y("get()")]), Y("a")]))
     D.append(("range_two_vars_noyield_body_redeclares", [("decl", "t", "0"), ("range", "k", "v", ":=", "[]int{a, b, a + b}", [("raw", "get := func() int { return v + k }"), ("raw", "v, w := v*2, k + 1"), ("assign", "t", "t*4 + v + w + get()")]), Y("t")]))
+    D.append(("assign_range_leading_self_copy", [("raw", "var k, v int"), ("range", "k", "v", "=", "[]int{a, b, a + b}", [("raw", "v := v\nk := k"), ("assign", "v", "v * 10"), ("assign", "k", "k + 100"), Y("k + v")]), Y("k"), Y("v")]))
+    D.append(("assign_range_self_copy_captured", [("raw", "var v int\nvar fs []func() int"), ("range", "_", "v", "=", "[]int{a, b}", [("raw", "v := v\nfs = append(fs, func() int { return v })"), Y("v")]), ("raw", "for _, f := range fs {\n\tYield(f() + 1000)\n}"), Y("v + 1")]))
+    D.append(("define_range_leading_self_copy", [("range", "k", "v", ":=", "[]int{a, b}", [("raw", "v := v\nk := k"), ("assign", "v", "v * 10"), Y("k + v")]), Y("a")]))
     D.append(("init_after_yield", [Y("a + 1"), ("for", ("decl", "x", "a"), "x < a + n", ("inc", "x"), [Y("x + 2")]), ("decl", "x", "b"), Y("x + 3")]))
     # loop-variable identity: closures created in one iteration, called after the loop
     D.append(("range_var_captured_escapes", [("raw", "var fs []func() int"), ("range", "_", "v", ":=", "[]int{a, b, a + b}", [("raw", "fs = append(fs, func() int { return v })"), Y("v + 1")]), ("raw", "for _, f := range fs {\n\tYield(f() + 1000)\n}")]))
@@ -1215,7 +1223,7 @@ def plan_C07(ctx):
             p.helpers = p.helpers.replace("@", p.pid)
             p.body = [tuple(x.replace("@", p.pid) if isinstance(x, str) else x for x in st) for st in p.body]
             corp.add(p)
-        xs = gen.exprform_programs() + gen.funcvalue_programs()
+        xs = gen.exprform_programs() + gen.funcvalue_programs() + gen.unit_programs()
         for p in xs:
             corp.add(p)
         # closures over functions of other imported packages whose signature is the only mention of a
@@ -1392,6 +1400,17 @@ def plan_C14(ctx):
                 p.helpers += "\n" + gen.il_driver(p.name, 2, m, mixed, suffix="X")
             n += 1
             corp.add(p)
+        # value-receiver method generators: every call works on its own copy of the receiver
+        pid = "i_recv"
+        p = gen.Program(pid, [("yield", "a")], named_result=True, family="il", tags={"il:value-receiver"})
+        recv = ("type acc@ struct{ sum, step int }\n\nfunc (x acc@) Run(n int) (_ Iter[int]) {\n\tfor i := 0; i < n; i++ {\n\t\tx.sum += x.step + i\n\t\tYield(x.sum)\n\t}\n\treturn\n}\n\n"
+                "type gbox@[T any] struct{ v T }\n\nfunc (g gbox@[T]) Twice(n int, f func(T) T) (_ Iter[T]) {\n\tfor i := 0; i < n; i++ {\n\t\tg.v = f(g.v)\n\t\tYield(g.v)\n\t}\n\treturn\n}\n\nvar accv@ = acc@{sum: 0, step: 1}\n").replace("@", pid)
+        recv += ("var accw@ = acc@{sum: 5, step: 2}\nvar gbv@ = gbox@[int]{v: 3}\n").replace("@", pid)
+        mk_recv = ["stepI%s(accw%s.Run(n + 2))" % (pid, pid), "stepI%s(accv%s.Run(n + 2))" % (pid, pid), "stepI%s(accv%s.Run(n + 2))" % (pid, pid)]
+        mk_gen = ["stepI%s(gbv%s.Twice(n+2, func(x int) int { return x + b }))" % (pid, pid), "stepI%s(gbv%s.Twice(n+2, func(x int) int { return x + 1 }))" % (pid, pid)]
+        p.helpers = gen.IL_HELPERS.replace("@", pid) + "\n" + recv + "\n" + gen.il_driver(p.name, 3, m, mk_recv) + "\n" + gen.il_driver(p.name, 2, m, mk_gen, suffix="X")
+        corp.add(p)
+        n += 1
         return {"programs": n, "iterators_k": k, "steps_each_m": m, "interleavings_per_program": "all schedules giving each iterator exactly m steps (k=2,m=3: 20; k=3,m=2: 90)"}
 
     extra = {
